@@ -9,7 +9,7 @@ vec-math : every arithmetic / comparison operator between two vectors, each oper
            by one name-keeping operation, all name pairs                           -> name is None.
 tab-build: every name list of width <= 3 through Table([...]), Table({...}), v >> v >> v,
            Table >> Table, Table >> vector / dict / list                         -> stored names in order.
-tab-chain: every chain of length <= 2 (quick) / <= 3 (thorough) of structural operations (row slice, reversed
+tab-chain: every chain of length <= 2 (quick) / <= 3 (thorough; width-3 tables: <= 2) of structural operations (row slice, reversed
            slice, list / vector mask, index vector, column slice, sort_by asc/desc by vector and by name,
            scalar arithmetic, inner/left/full join with a second table, >> table / vector) on every table
            of width <= 2 (quick) / <= 3                                          -> model list of names.
@@ -561,6 +561,6 @@ if __name__ == '__main__':
               'builders over all name lists of width <= 3; all chains of structural table operations incl. joins and >>; '
               'table-scalar and table-table arithmetic over all name pairs; aggregate/window over key/value name patterns. '
               'distinct = distinct operation chains / operator-name patterns',
-         bound=lambda tier: {'names': len(NAMES), 'vec_chain': 2 if tier == 'quick' else 3, 'tab_chain': 2 if tier == 'quick' else 3,
+         bound=lambda tier: {'names': len(NAMES), 'vec_chain': 2 if tier == 'quick' else 3, 'tab_chain': 2 if tier == 'quick' else '3 (width<=2), 2 (width 3)',
                              'tab_width': 2 if tier == 'quick' else 3, 'build_width': 3},
          nontrivial=nontrivial)
